@@ -582,6 +582,10 @@ def run(model, rep, tier):
     check_composites(model, _OnlyRule(rep, {'R07.4': 'R06.9'}))   # element kind announced by the linear-algebra wrappers that go through functools.partial (not reachable for R06.8)
     check_compiled_subset_dependencies(model, rep, rule='R06.2')
     check_fields_announced(model, rep, rule='R06.2')
+    from rules import round4 as _r4
+    rep.rule('R06.11', 'multi-operand function arrays announce the arguments of all operands; InRange guards index.max() < length')
+    _r4.check_arguments_of_all_operands(model, rep, 'R06.11')
+    _r4.check_inrange_guard(model, rep, 'R06.11')
     rep.require('R06.1', 14)
     rep.rule('R06.10', 'every name loaded in evaluable.py resolves (symtable)')
     from rules import names as _names
